@@ -6,7 +6,7 @@ from ..workloads import shapes as W9
 
 MANIFEST = dict(
     technique='runtime contract on BinaryTreeNode.rotate (entry snapshot of in-order object sequence and links, exit audit); exhaustive shape workload',
-    text="Every rotate() call (workload, and the associative rule's internal ones) is checked at exit against the in-order sequence and links recorded at entry; all shapes up to the bound x all nodes are driven.",
+    text="Every rotate() call (workload, and the associative rule's internal ones) is checked at exit against the in-order sequence and links recorded at entry; all shapes up to the bound x all nodes are driven (also with repeating and identical node ids), plus rotation histories: rotations interleaved with child swaps and subtree moves on the same node objects, and in-place sequences of the associative and commutative rules.",
     note='Trusts CPython and our link audit.',
     ref='DESIGN.md 3/C15',
 )
